@@ -616,6 +616,30 @@ func init() {
 		c := in.toTerm(args[0], types.Bool)
 		return in.mkSym(in.st.Ite(c, in.toTerm(args[1], types.Int64), in.toTerm(args[2], types.Int64)), types.Int64), true
 	}
+	// Isolated(f) []byte: runs f and then rolls the whole heap back to the
+	// state before the call (file system and diagnostics included), returning a
+	// copy of the result: "what f yields in a fresh process".
+	V["Isolated"] = func(fr *frame, args []value) (value, bool) {
+		in := fr.i
+		mark := len(in.undo)
+		env := in.env
+		savedFiles := map[string]*memFile{}
+		for k, f := range env.files {
+			cp := *f
+			cp.data = append([]value(nil), f.data...)
+			savedFiles[k] = &cp
+		}
+		savedDiag := append([]string(nil), env.diag...)
+		savedOut := append([]string(nil), env.stdout...)
+		res := in.call(fr, 0, args[0], nil)
+		var cp []value
+		if sl, ok := res.([]value); ok && sl != nil {
+			cp = append([]value{}, sl...)
+		}
+		in.rollback(mark)
+		env.files, env.diag, env.stdout = savedFiles, savedDiag, savedOut
+		return cp, true
+	}
 	V["IsConcrete"] = func(fr *frame, args []value) (value, bool) { return false, true }
 }
 
